@@ -293,6 +293,45 @@ func (r *resolver) copyOverSubmoduleData(main *Module, sub *Module) error {
 	return r.copyOverIncludes(main, sub.includes)
 }
 
+type dataDefinitionIndexer interface {
+	indexDataDefinition(def Definition) error
+	indexChoiceDefinitions(c *Choice) error
+}
+
+func (r *resolver) indexInChoiceAncestors(target Meta, added []Definition) error {
+	for p := target.Parent(); p != nil; p = p.Parent() {
+		if indexer, hasIndex := p.(dataDefinitionIndexer); hasIndex {
+			for _, d := range added {
+				defs := []Definition{d}
+				if cs, isCase := d.(*ChoiceCase); isCase {
+					defs = cs.DataDefinitions()
+				} else if implied, found := target.(*Choice); found {
+					// an implied case was created around d
+					if cs := implied.Cases()[d.Ident()]; cs != nil {
+						defs = cs.DataDefinitions()
+					}
+				}
+				for _, def := range defs {
+					if err := indexer.indexDataDefinition(def); err != nil {
+						return err
+					}
+					if nested, isChoice := def.(*Choice); isChoice {
+						if err := indexer.indexChoiceDefinitions(nested); err != nil {
+							return err
+						}
+					}
+				}
+			}
+		}
+		_, isChoice := p.(*Choice)
+		_, isCase := p.(*ChoiceCase)
+		if !isChoice && !isCase {
+			break
+		}
+	}
+	return nil
+}
+
 func (r *resolver) applyDeviation(y *Module, d *Deviation) error {
 	target := Find(y, d.Ident())
 	if target == nil {
@@ -885,9 +924,11 @@ func (r *resolver) expandAugment(y *Augment, parent Meta) error {
 	}
 
 	targetChoice, targetIsChoice := target.(*Choice)
+	var added []Definition
 	for _, orig := range y.DataDefinitions() {
 		var err error
 		d := orig.(cloneable).clone(target).(Definition)
+		added = append(added, d)
 		if y.when != nil {
 			// augment's condition guards every node it adds
 			if hasWhen, valid := d.(HasWhen); valid && hasWhen.When() == nil {
@@ -912,6 +953,14 @@ func (r *resolver) expandAugment(y *Augment, parent Meta) error {
 			return fmt.Errorf("%T not a recognizable parent for ", parent)
 		}
 		if err != nil {
+			return err
+		}
+	}
+
+	// what is added to a choice or to a case is also a child, by name, of every enclosing
+	// case and of the data node around the choice
+	if _, targetIsCase := target.(*ChoiceCase); targetIsChoice || targetIsCase {
+		if err := r.indexInChoiceAncestors(target, added); err != nil {
 			return err
 		}
 	}
